@@ -179,6 +179,55 @@ def m_time(holder, x):
     return None
 
 
+def r12_merged_track(ctx):
+    """MidiFile.merged_track is that merge, whatever the file type (0, 1) and the number of tracks - one track included, whose
+    end_of_track messages are folded like any other's - and a new track each time."""
+    from ..fold import ClassRef
+    ai = smf.make_interp(ctx)
+    cls = ctx.p.cls(smf.MF, 'MidiFile')
+    o, mtp = ctx.p.lookup_method(cls, 'merged_track')
+    if mtp is None:
+        raise AnalysisError('MidiFile.merged_track not found')
+    ctx.fn(mtp)
+    w = ctx.where(mtp)
+    n = 0
+    single = {'one track, end_of_track in the middle': [[('n', 2, 1), ('eot', 3, None), ('n', 4, 2), ('eot', 1, None)]],
+              'one track, no end_of_track': [[('n', 2, 1), ('n', 4, 2)]],
+              'one track, two end_of_tracks at the end': [[('n', 2, 1), ('eot', 3, None), ('eot', 5, None)]],
+              'one empty track': [[]]}
+    cases = [(name, spec, t) for name, spec in single.items() for t in (0, 1)]
+    cases += [(name, SCENARIOS[name], 1) for name in list(SCENARIOS)[:4]]
+    for name, spec, type_ in cases:
+        n += 1
+        holder = {}
+
+        def thunk():
+            tracks, allmsgs = build(ai, ctx, spec)
+            holder['tracks'] = tracks
+            mf = ai.apply(ClassRef(cls), [], {'type': type_, 'tracks': AList(tracks, 'list')}, None)
+            a = ai.call_function(mtp, [mf], {})
+            b = ai.call_function(mtp, [mf], {})
+            return a, b
+        outs = ai.explore(thunk)
+        inst = f'merged_track[{name}, type {type_}]'
+        cons = f'{mtp.qname}::is-the-merge'
+        if len(outs) != 1 or outs[0].kind != 'return':
+            ctx.fail('R12.6', inst, w, f'does not complete on one path: {outs}', construct=cons)
+            continue
+        a, b = outs[0].value
+        items = a.items if isinstance(a, AList) else None
+        want, final = reference(spec)
+        exp = want + [(('eot', None), final)]
+        got = [(ident_of(x), x.attrs.get('time') if isinstance(x, AObj) else None) for x in (items or [])]
+        fresh = isinstance(a, AList) and isinstance(b, AList) and a is not b and not any(a is t or b is t for t in holder['tracks'])
+        ctx.require(items is not None and got == exp and fresh, 'R12.6', inst, w,
+                    f'merged_track is {got if items is not None else a!r} ({"a new track each time" if fresh else "NOT a new track: it is a track of the file, or the same object twice"}); '
+                    f'the merge of the tracks is {exp}', construct=cons)
+    ctx.floor('R12.6', n, 12)
+    for q in ai.inlined:
+        ctx.functions.add(q)
+
+
 def r12_current_contents(ctx):
     """MidiFile.merged_track hands merge_tracks the tracks as they are NOW: no memo of an earlier merge (shared with C16:
     no derived state in MidiFile, observe - edit - observe equals a fresh file)."""
@@ -187,4 +236,4 @@ def r12_current_contents(ctx):
     ctx.borrow(c16.r16_3, 'R12.5')
 
 
-RULES = [('R12-scenarios', r12_scenarios), ('R12.5', r12_current_contents)]
+RULES = [('R12.6', r12_merged_track), ('R12-scenarios', r12_scenarios), ('R12.5', r12_current_contents)]
